@@ -15,11 +15,13 @@ pub mod c09;
 pub mod c10;
 pub mod c11;
 pub mod c12;
+pub mod c16;
 pub mod c17;
 pub mod c18;
+pub mod c19;
 
 pub fn ids() -> Vec<&'static str> {
-    vec!["C01", "C02", "C03", "C04", "C05", "C06", "C07", "C08", "C09", "C10", "C11", "C12", "C17", "C18"]
+    vec!["C01", "C02", "C03", "C04", "C05", "C06", "C07", "C08", "C09", "C10", "C11", "C12", "C16", "C17", "C18", "C19"]
 }
 
 pub fn get(id: &str) -> Option<CheckDef> {
@@ -36,8 +38,10 @@ pub fn get(id: &str) -> Option<CheckDef> {
         "C10" => c10::def(),
         "C11" => c11::def(),
         "C12" => c12::def(),
+        "C16" => c16::def(),
         "C17" => c17::def(),
         "C18" => c18::def(),
+        "C19" => c19::def(),
         _ => return None,
     })
 }
